@@ -236,7 +236,7 @@ Proof.
       rewrite Hin. rewrite (slice_mid s1 (M ++ p1 ++ [b]) p2).
       destruct Hp as [Hp|Hp]; [destruct p1; discriminate|].
       subst M. destruct (attempt_incomplete cs (p1 ++ [b]) Hcs Hp) as (e & out & -> & Hc). rewrite Hc.
-      set (input := s1 ++ (List.concat cs ++ p1 ++ [b]) ++ p2).
+      match goal with |- context [chunk_loop _ _ _ ?inp _ _] => set (input := inp) end.
       assert (Hlen : len input = len s1 + len (List.concat cs) + len p1 + 1 + len p2)
         by (unfold input, len; rewrite !app_length; cbn [List.length]; lia).
       assert (Hl2' : len p1 + 1 + len p2 <= 3) by (unfold len in *; rewrite !app_length in Hl2; cbn [List.length] in Hl2; lia).
@@ -260,12 +260,12 @@ Proof.
       * rewrite app_nil_r. exact Hl1'.
       * unfold len in *. rewrite !app_length in *. cbn [List.length] in *. lia.
       * rewrite app_length in Hf. cbn [List.length] in *. lia.
-  - intros s1 p1 p2 fuel Hs Hp Hl1 Hl2 Hf. inversion Hs as [|? ? [Hb Hc] Hs']; subst.
+  - intros s1 p1 p2 fuel Hs Hp Hl1 Hl2 Hf. apply Forall_cons_iff in Hs as [[Hb Hc] Hs'].
     destruct fuel; [cbn in Hf; lia|]. cbn [chunk_loop].
     assert (Hin : s1 ++ (b :: s2) ++ M ++ p1 ++ p2 = s1 ++ ((b :: s2) ++ M ++ p1) ++ p2) by (rewrite <- !app_assoc; reflexivity).
     rewrite Hin, (slice_mid s1 ((b :: s2) ++ M ++ p1) p2). cbn [app].
     destruct (attempt_invalid b (s2 ++ M ++ p1) Hb Hc) as (e & out & -> & Hcause). rewrite Hcause.
-    set (input := s1 ++ (b :: s2 ++ M ++ p1) ++ p2).
+    match goal with |- context [chunk_loop _ _ _ ?inp _ _] => set (input := inp) end.
     assert (Hlen : len input = len s1 + 1 + len s2 + len M + len p1 + len p2)
       by (unfold input, len; rewrite !app_length; cbn [List.length]; rewrite !app_length; lia).
     assert (Hl1' : len s1 + 1 + len s2 <= 3) by (unfold len in *; rewrite app_length in Hl1; cbn [List.length] in Hl1; lia).
@@ -291,7 +291,7 @@ Proof.
   intros Hs Hls Hne Hcs Hp Hlp. unfold utf8_chunk_decode, helper. cbn [andb].
   pose proof (chunk_loop_trims (List.concat cs) cs eq_refl Hne Hcs s [] p [] (S (List.length (s ++ List.concat cs ++ p)))) as H.
   cbn [app] in H. rewrite app_nil_r in H. change (len []) with 0 in H. rewrite N.sub_0_r in H.
-  rewrite H; [reflexivity|exact Hs|exact Hp|exact Hls|rewrite app_nil_r; exact Hlp|].
+  rewrite H; [reflexivity|exact Hs|exact Hp|exact Hls|rewrite ?app_nil_r; exact Hlp|].
   rewrite !app_length. lia.
 Qed.
 
